@@ -27,8 +27,12 @@ pub struct Case {
     pub feat: Vec<String>,
 }
 
+/// the K2 shape: one hunk, no context, one side empty and located at line 0 ("-0,0" / "+0,0")
 fn is_pure_single_ctx0(hunks: &[HHunk]) -> bool {
-    hunks.len() == 1 && hunks[0].prefix_ctx() == 0 && hunks[0].suffix_ctx() == 0 && (hunks[0].old_count() == 0 || hunks[0].new_count() == 0)
+    hunks.len() == 1
+        && hunks[0].prefix_ctx() == 0
+        && hunks[0].suffix_ctx() == 0
+        && ((hunks[0].old_count() == 0 && hunks[0].old_start == 0) || (hunks[0].new_count() == 0 && hunks[0].new_start == 0))
 }
 
 impl Prop for C01 {
@@ -47,7 +51,7 @@ impl Prop for C01 {
         ]
     }
     fn budget(&self, tier: Tier) -> (u32, usize) {
-        (tier.pick(2000, 40000), 420)
+        (tier.pick(6000, 60000), 420)
     }
     fn build(&self, ch: &mut Chooser, cx: &mut CaseCtx) -> Case {
         let thorough = cx.env.tier == Tier::Thorough;
